@@ -10,6 +10,7 @@ import (
 
 	errorsmod "cosmossdk.io/errors"
 	abci "github.com/cometbft/cometbft/abci/types"
+	cmttypes "github.com/cometbft/cometbft/types"
 	"github.com/cosmos/cosmos-sdk/baseapp"
 	"github.com/cosmos/cosmos-sdk/client"
 	"github.com/cosmos/cosmos-sdk/client/tx"
@@ -79,7 +80,18 @@ func (k Keeper) PrepareProposalHandler(
 		if err := eg.Wait(); err != nil {
 			return nil, err
 		}
-		return &abci.ResponsePrepareProposal{Txs: append([][]byte{ethTx}, memTxs...)}, nil
+
+		// the txs should fit in the block, cometbft refuses to create the proposal otherwise
+		txs := [][]byte{ethTx}
+		size := cmttypes.ComputeProtoSizeForTxs([]cmttypes.Tx{ethTx})
+		for _, memTx := range memTxs {
+			size += cmttypes.ComputeProtoSizeForTxs([]cmttypes.Tx{memTx})
+			if size > rpp.MaxTxBytes {
+				break
+			}
+			txs = append(txs, memTx)
+		}
+		return &abci.ResponsePrepareProposal{Txs: txs}, nil
 	}
 }
 
